@@ -66,8 +66,8 @@ def parsePrim (s : String) : Option Prim :=
 
 def showPrim : Prim → String
   | .str s => s!"s:{s}"
-  | .int i => s!"i:{i}"
-  | .flt m => s!"f:{m}"
+  | .int i => s!"n:{i * 1000}"   -- numbers are printed type-agnostic, in thousandths
+  | .flt m => s!"n:{m}"
   | .bool b => s!"b:{b01 b}"
 
 def parseNamed {α : Type} (p : String → Option α) (s : String) : Option (String × α) :=
@@ -201,7 +201,7 @@ def parseCondAux : Nat → List Char → Option (Cond × List Char)
     match cs with
     | 'T' :: rest => some (.tt, rest)
     | 'F' :: rest => some (.ff, rest)
-    | 'E' :: rest => some (.err, rest)
+    | 'E' :: rest => some (.err, rest.dropWhile Char.isDigit)
     | '!' :: rest => (parseCondAux fuel rest).map (fun (c, r) => (.not c, r))
     | '&' :: '(' :: rest => (args cs.length rest []).map (fun (l, r) => (foldAnd l, r))
     | '|' :: '(' :: rest => (args cs.length rest []).map (fun (l, r) => (foldOr l, r))
@@ -284,7 +284,7 @@ def parseBackend (s : String) : Option Backend :=
 
 def parseCache (s : String) : Option CacheMode :=
   match s with
-  | "n" => some .none | "r" => some .read | "s" => some .read | "d" => some .delay | _ => none
+  | "n" => some .none | "r" => some .read | "s" => some .read | "d" => some .delay | "e" => some .delay | _ => none
 
 /-- Recently deleted records (deleted "now") are hidden from raw dumps: whether the global maintenance,
     whose threshold is the wall clock, purges them depends on a second boundary. -/
@@ -361,6 +361,11 @@ def handle (s : Sys) (line : String) : Sys × String :=
      | none => (s, "bad-op"))
   | ["gmaintain"] => ({ s with store := maintain s.cfg s.store T T }, "ok")
   | ["dump"] => (s, showDump s.store)
+  | ["iter", n, e, _forced] =>
+    -- the iterator hand-over: the consumer drains all n records and then sees the producer's error
+    (match n.toNat?, parseBool e with
+     | some n, some e => (s, s!"ok {n} err=" ++ (if e then "E" else "nil"))
+     | _, _ => (s, "bad-op"))
   | ["flush", id] => s.exec id .flush
   | ["clear", id] => s.exec id .clear
   | ["sub", id, sid, p, c] =>
